@@ -825,6 +825,14 @@ func (e *factEngine) intrinsic(v ssa.Value, depth int) factSet {
 				}
 			}
 		}
+		// a result of a helper of this repository: what holds for the value
+		// at every return of the helper holds for the result (numbers only;
+		// facts about lengths of the callee's own variables do not carry over)
+		if call, ok := x.Tuple.(*ssa.Call); ok && depth < 4 && isIntType(x.Type()) {
+			for k := range e.returnFacts(call, x.Index, depth) {
+				f[k] = true
+			}
+		}
 	case *ssa.Parameter:
 		for k := range e.paramFacts(x, depth) {
 			f[k] = true
